@@ -7,7 +7,7 @@ value   := b:0|1 | i:<int32> | l:<int64> | u:<uint32> | U:<uint64> | d:<16 hex d
 attrs   := -  |  <keyhex>=<value>,<keyhex>=<value>,…          (hex strings: `-` = empty)
 Anything out of range or not matching is rejected (`none` → the driver prints `bad-op`). -/
 namespace Driver
-open Otel Otel.Attr
+open Otel Otel.SAttr
 
 def parseNat (s : String) : Option Nat :=
   let cs := s.toList
